@@ -273,14 +273,20 @@ impl private::StoreCallbacks<TextResource> for AnnotationStore {
     fn preremove(&mut self, handle: TextResourceHandle) -> Result<(), StamError> {
         if let Some(annotations) = self.resource_annotation_metamap.data.get(handle.as_usize()) {
             for a_handle in annotations.clone() {
-                <AnnotationStore as StoreFor<Annotation>>::remove(self, a_handle)?;
+                if <AnnotationStore as StoreFor<Annotation>>::has(self, a_handle) {
+                    //(it may already be gone: removing an earlier one cascades to the annotations that target it)
+                    <AnnotationStore as StoreFor<Annotation>>::remove(self, a_handle)?;
+                }
             }
         }
         if let Some(map) = self.textrelationmap.data.get(handle.as_usize()) {
             let mut annotations: BTreeSet<AnnotationHandle> = BTreeSet::new();
             annotations.extend(map.data.iter().flatten());
             for a_handle in annotations {
-                <AnnotationStore as StoreFor<Annotation>>::remove(self, a_handle)?;
+                if <AnnotationStore as StoreFor<Annotation>>::has(self, a_handle) {
+                    //(it may already be gone: removing an earlier one cascades to the annotations that target it)
+                    <AnnotationStore as StoreFor<Annotation>>::remove(self, a_handle)?;
+                }
             }
         }
         self.resource_annotation_metamap.remove_all(handle);
@@ -488,7 +494,10 @@ impl private::StoreCallbacks<Annotation> for AnnotationStore {
         if let Some(handles) = self.annotation_annotation_map.get(handle) {
             //annotations that point at us (we clone to lose the reference and not break exclusive mutable borrow rules)
             for a_handle in handles.clone() {
-                <AnnotationStore as StoreFor<Annotation>>::remove(self, a_handle)?;
+                if <AnnotationStore as StoreFor<Annotation>>::has(self, a_handle) {
+                    //(it may already be gone: removing an earlier one cascades to the annotations that target it)
+                    <AnnotationStore as StoreFor<Annotation>>::remove(self, a_handle)?;
+                }
             }
         }
         self.annotation_annotation_map.remove_all(handle);
@@ -606,12 +615,18 @@ impl private::StoreCallbacks<AnnotationDataSet> for AnnotationStore {
             }
         }
         for a_handle in annotations {
-            <AnnotationStore as StoreFor<Annotation>>::remove(self, a_handle)?;
+            if <AnnotationStore as StoreFor<Annotation>>::has(self, a_handle) {
+                //(it may already be gone: removing an earlier one cascades to the annotations that target it)
+                <AnnotationStore as StoreFor<Annotation>>::remove(self, a_handle)?;
+            }
         }
         if let Some(annotations) = self.dataset_annotation_metamap.data.get(handle.as_usize()) {
             //remove annotations that point at us (we clone to lose the reference and not break exclusive mutable borrow rules)
             for a_handle in annotations.clone() {
-                <AnnotationStore as StoreFor<Annotation>>::remove(self, a_handle)?;
+                if <AnnotationStore as StoreFor<Annotation>>::has(self, a_handle) {
+                    //(it may already be gone: removing an earlier one cascades to the annotations that target it)
+                    <AnnotationStore as StoreFor<Annotation>>::remove(self, a_handle)?;
+                }
             }
         }
         self.dataset_annotation_metamap.remove_all(handle);
@@ -2047,8 +2062,11 @@ impl AnnotationStore {
                     for a_handle in annotations.clone() {
                         delete.push((set_handle, data_handle, a_handle));
                         if strict {
-                            <AnnotationStore as StoreFor<Annotation>>::remove(self, a_handle)?;
-                        } else {
+                            if <AnnotationStore as StoreFor<Annotation>>::has(self, a_handle) {
+                                //(it may already be gone: removing an earlier one cascades to the annotations that target it)
+                                <AnnotationStore as StoreFor<Annotation>>::remove(self, a_handle)?;
+                            }
+                        } else if <AnnotationStore as StoreFor<Annotation>>::has(self, a_handle) {
                             let annotation = self.get_mut(a_handle)?;
                             let prelen = annotation.raw_data().len();
                             annotation.remove_data(set_handle, data_handle);
@@ -2064,7 +2082,10 @@ impl AnnotationStore {
                 if let Some(annotations) = self.data_annotation_metamap.get(set_handle, data_handle)
                 {
                     for a_handle in annotations.clone() {
-                        <AnnotationStore as StoreFor<Annotation>>::remove(self, a_handle)?;
+                        if <AnnotationStore as StoreFor<Annotation>>::has(self, a_handle) {
+                            //(it may already be gone: removing an earlier one cascades to the annotations that target it)
+                            <AnnotationStore as StoreFor<Annotation>>::remove(self, a_handle)?;
+                        }
                     }
                 }
 
@@ -2106,7 +2127,10 @@ impl AnnotationStore {
 
                 if let Some(annotations) = self.key_annotation_metamap.get(set_handle, key_handle) {
                     for a_handle in annotations.clone() {
-                        <AnnotationStore as StoreFor<Annotation>>::remove(self, a_handle)?;
+                        if <AnnotationStore as StoreFor<Annotation>>::has(self, a_handle) {
+                            //(it may already be gone: removing an earlier one cascades to the annotations that target it)
+                            <AnnotationStore as StoreFor<Annotation>>::remove(self, a_handle)?;
+                        }
                     }
                 }
 
